@@ -41,7 +41,7 @@ def check_string(run, name, h, hs, pw, ctx, origin, st=None, canonical=None, ver
     key = (name, origin, (st or {}).get("rounds"), len((st or {}).get("salt", "")) if isinstance((st or {}).get("salt", ""), (str, bytes)) else 0,
            ",".join(f"{k}={v}" for k, v in sorted((st or {}).items()) if k not in ("salt", "rounds")))
     for form, inp in (("str", hs), ("bytes", hs.encode("utf-8"))):
-        if form == "bytes" and not hs.isascii():
+        if form == "bytes" and not hs.isascii() and bname not in H.PLAIN:
             continue
         try:
             if not h.identify(inp):
@@ -138,6 +138,10 @@ def produced(run, names):
             except ValueError:
                 continue
             check_string(run, name, h, hs, pw, ctx, "produced", st)
+            if name in H.PLAIN:
+                # these "hashes" carry the password text itself, which need not be ASCII (also when read back as UTF-8 bytes)
+                for extra in ("p\u00e4ssw\u00f6rd", "\u5bc6\u7801 x"):
+                    check_string(run, name, h, hh.hash(extra, **ctx), extra, ctx, "produced-non-ascii", None)
             # (B) the same settings rendered by the independent reference grammar
             try:
                 ref = ref_for(name, pw.encode(), norm_settings(name, st), ctx)
@@ -297,6 +301,31 @@ def grammar_variants(run, name, h, bname, ref, pw, ctx, st, rng):
             run.count("origin:digest-padding-bits-set")
 
 
+def class_switches(run):
+    """documented class-level switches set by an application subclass: the subclass still parses what it renders"""
+    import passlib.hash as PH
+    rng = run.rng("switches")
+
+    class no_dup(PH.django_des_crypt):
+        use_duplicate_salt = False
+    for cls, label in ((no_dup, "django_des_crypt.use_duplicate_salt=False"),):
+        for _ in range(6):
+            pw = H.pw_bytes(rng, rng.choice([1, 5, 8]), "ascii").decode()
+            w = dict(hasher=label, password=pw)
+            try:
+                hs = cls.hash(pw)
+                ok = cls.identify(hs) and cls.verify(pw, hs) and not cls.verify(pw + "x" if len(pw) < 8 else "y" + pw[1:], hs)
+                back = cls.from_string(hs).to_string()
+                plain_ok = PH.django_des_crypt.verify(pw, hs)
+            except Exception as e:
+                run.violation(f"C07|django_des_crypt|class-switch|{type(e).__name__}", f"{label}: the subclass cannot parse / verify the hash it renders: {type(e).__name__}: {str(e)[:80]}", w)
+                continue
+            run.count("class_switch_cases")
+            run.case(("class-switch", label), dict(w, hash=hs))
+            if not ok or back != hs or not plain_ok:
+                run.violation("C07|django_des_crypt|class-switch|round-trip", f"{label}: hash {hs!r}: verifies={ok} re-rendered={back!r} stock class verifies={plain_ok}", dict(w, hash=hs))
+
+
 def libpass_inspect(run):
     from libpass.inspect.sha_crypt import SHA256CryptInfo, SHA512CryptInfo, inspect_sha_crypt
     from libpass.inspect.pbkdf2 import PBKDF2SHA256CryptInfo, PBKDF2SHA512CryptInfo, inspect_pbkdf2_hash
@@ -401,6 +430,8 @@ def body(run):
         run.note(f"{n}: no argon2 backend installed on this host - not exercised (libpass Argon2PHC records are, they need no backend)")
     run.parallel("checks.c07", "produced", [dict(names=names[i::16]) for i in range(16)], timeout=900 if run.tier == "quick" else 3600)
     libpass_inspect(run)
+    class_switches(run)
+    run.require("class_switch_cases", 3)
     for n in names:
         if H.usable(n) and n not in H.DISABLED:
             run.require(f"rt:{n}", 2)
